@@ -42,6 +42,9 @@ def plan_c15(c):
                                      else "; writer/readers on boundaries +-300, 6^4 digit-structured and 1500 random "
                                           "values, all 9330 continuation patterns of <= 5 bytes over 6 byte values"))
     c.evaluations = 4 * 268435456 + c.events
+    # measured: the domain the helper run tables tile (HelperRuns lo..hi), each value a distinct case
+    h = first_event(files[0], "HelperRuns")
+    c.extra["distinct_points_in_exhaustive_sweeps"] = h["hi"] - h["lo"] + 1
     return c.events
 
 
@@ -64,6 +67,8 @@ def plan_c19(c):
     c.extra["exhaustive"] = True
     c.extra["exhaustive_domain"] = "all 65,535 x 65,536 (identifier, amount) pairs through + - += -= and undo, both build profiles"
     c.evaluations = 2 * 65535 * 65536
+    # measured by the sweep itself (PidTables.pairs = [pairs div 65536, pairs mod 65536]); every pair is a distinct case
+    c.extra["distinct_points_in_exhaustive_sweeps"] = t["pairs"][0] * 65536 + t["pairs"][1]
     return 65535 * 65536
 
 
